@@ -344,7 +344,7 @@ class Plucker(SMUserList):
             raise ValueError("can pnly append Plucker object")
         if len(x) > 1:
             raise ValueError("cant append a Plucker sequence - use extend")
-        super().append(x.A)
+        self.data.append(x.A)
 
     @property
     def A(self):
